@@ -106,6 +106,7 @@ contract(
     },
     canaries={"no-writer-runs": "len(self.trace) == 0"},
     merge_branches=False,
+    comp_member_facts=False,  # the member/position facts of `{w.insertFeatureMarker for w in self.featureWriters ..}` are not needed and derail z3 on the loop steps
     loops={"for writer in self.featureWriters": Loop(index="i", seq="FW", invariants={
         "trace-len": "len(self.trace) == i", "trace": "all(self.trace[j] == self.featureWriters[j] for j in range(i))", "files": "all(x == self.parsed for x in self.trace_files)", "fw": "self.featureWriters == FW", "parsed": "featureFile == self.parsed"})},
 )
